@@ -99,14 +99,22 @@ func ListKeyIDs(signingName string, message []byte) ([]KeyID, error) {
 	if err := json.Unmarshal(message, &object); err != nil {
 		return nil, err
 	}
-	var signatures map[string]map[KeyID]json.RawMessage
+	// Only the entry of the named entity is decoded: "signatures" is covered neither by the hash
+	// nor by the signatures, so the entries of other entities must not be able to matter.
+	var signatures map[string]json.RawMessage
 	if raw, ok := object["signatures"]; ok {
 		if err := json.Unmarshal(raw, &signatures); err != nil {
 			return nil, err
 		}
 	}
+	var entry map[KeyID]json.RawMessage
+	if raw, ok := signatures[signingName]; ok {
+		if err := json.Unmarshal(raw, &entry); err != nil {
+			return nil, err
+		}
+	}
 	var result []KeyID
-	for keyID := range signatures[signingName] {
+	for keyID := range entry {
 		result = append(result, keyID)
 	}
 	return result, nil
@@ -118,21 +126,33 @@ func VerifyJSON(signingName string, keyID KeyID, publicKey ed25519.PublicKey, me
 	// This allows us to add and remove the top-level keys from the JSON object.
 	// It also ensures that the JSON is actually a valid JSON object.
 	var object map[string]*json.RawMessage
-	var signatures map[string]map[KeyID]spec.Base64Bytes
 	if err := json.Unmarshal(message, &object); err != nil {
 		return err
 	}
 
 	// Check that there is a signature from the entity that we are expecting a signature from.
+	// Only signatures[signingName][keyID] is decoded: the entries of other entities, and the other
+	// key IDs of this one, are covered by nothing and must not be able to make the check fail.
 	if object["signatures"] == nil {
 		return fmt.Errorf("No signatures")
 	}
+	var signatures map[string]json.RawMessage
 	if err := json.Unmarshal(*object["signatures"], &signatures); err != nil {
 		return err
 	}
-	signature, ok := signatures[signingName][keyID]
+	var entry map[KeyID]json.RawMessage
+	if raw, ok := signatures[signingName]; ok {
+		if err := json.Unmarshal(raw, &entry); err != nil {
+			return err
+		}
+	}
+	rawSignature, ok := entry[keyID]
 	if !ok {
 		return fmt.Errorf("No signature from %q with ID %q", signingName, keyID)
+	}
+	var signature spec.Base64Bytes
+	if err := json.Unmarshal(rawSignature, &signature); err != nil {
+		return err
 	}
 	if len(signature) != ed25519.SignatureSize {
 		return fmt.Errorf("Bad signature length from %q with ID %q", signingName, keyID)
